@@ -27,6 +27,7 @@ Shapes == {"generic_contract", "interface_assoc"}
 (* type by its qualified path (`other::Param`): the parameter is used by the instantiate and query messages only                       *)
 QualifiedNames == Words \cup {"T", "E", "C", "D", "Q"}
 Configs == [param : ParamNames, shape : Shapes] \cup [param : ContractOnlyWords, shape : {"generic_contract"}]
+           \cup [param : ContractOnlyWords \ {"Error"}, shape : {"interface_assoc"}]
            \cup [param : QualifiedNames, shape : {"generic_qualified"}]
            \* "generic_custom_query": the parameter is the contract's custom *query* type, and an exec handler is called like it
            \* (its variant has the parameter's name)
